@@ -27,14 +27,15 @@ SYM = {
 }
 FULL = ["s0", "se", "s1", "s2", "e0", "e1", "W", "P", "G", "T", "K1", "K2"]
 MID = ["s0", "se", "s1", "e1", "W", "P", "G", "T", "K1", "K2"]
-QUICK = ["se", "s1", "W", "P", "G", "T", "K1"]
+QUICK = ["se", "s1", "W", "P", "G", "K1"]
 SMALL = ["se", "s1", "W", "P", "G", "K1"]
 TINY = ["se", "s1", "W", "P", "K1"]
 
 
 def bounds(tier):
-    q = [("A=1 K<=2 full alphabet", 1, 2, FULL, False), ("A=2 K=1 full", 2, 1, FULL, True), ("A=3 K=1 full", 3, 1, FULL, True),
-         ("A=2 K=2 (7 symbols)", 2, 2, QUICK, True)]
+    q = [("A=1 K<=2 full alphabet", 1, 2, FULL, False), ("A=1 K=3 (s1, s2, K1, K2, T, W)", 1, 3, ["s1", "s2", "K1", "K2", "T", "W"], True),
+         ("A=2 K=1 full", 2, 1, FULL, True), ("A=3 K=1 full", 3, 1, FULL, True),
+         ("A=2 K=2 (se, s1, W, P, G, K1)", 2, 2, QUICK, True)]
     if tier == "quick":
         return q
     return q + [("A=1 K=3 full", 1, 3, FULL, True), ("A=2 K=2 full", 2, 2, FULL, True), ("A=4 K=1 full", 4, 1, FULL, True),
@@ -43,7 +44,10 @@ def bounds(tier):
 
 def enum(A, K, syms, exact):
     alpha = lambda i, n: [(s,) for s in syms]
-    return [{"prog": [[op[0] for op in ops] for ops in p]} for p in progs.programs(alpha, A, K, exact=exact)]
+    cases = [{"prog": [[op[0] for op in ops] for ops in p]} for p in progs.programs(alpha, A, K, exact=exact)]
+    # order only: programs that set a kill time twice (known to abort, findings/C03-set-kill-time-twice.md) share packs
+    cases.sort(key=lambda c: not any(sum(s in ("K1", "K2") for s in ops) >= 2 for ops in c["prog"]))
+    return cases
 
 
 def expand(case):
@@ -190,12 +194,16 @@ def run(ctx):
     evaluations, done, per = 0, [], {}
     nontrivial, special, skipped = set(), 0, 0
     bad, errors, samples = [], [], []
-    exhaustive = True
+    exhaustive, rate = True, None
     for (name, A, K, syms, exact) in bounds(ctx.tier):
         if ctx.deadline.left() < 25 and done:
             exhaustive = False
             break
         cases = enum(A, K, syms, exact)
+        if rate and len(cases) > 1500 and len(cases) / rate * 1.3 > ctx.deadline.left() - 25:      # would not finish
+            exhaustive = False
+            break
+        t_b = time.time()
         results = simlib.eval_cases_packed(binary, cases, "checks.c03", K=32, tag="c03")
         evaluations += len(results)
         nb = 0
@@ -214,6 +222,8 @@ def run(ctx):
         per[name] = {"programs": len(cases), "failed": nb, "t_s": round(time.time() - ctx.t0, 1)}
         common.log("C03 %s: %d programs, %d failing, t=%.0fs" % (name, len(cases), nb, time.time() - ctx.t0))
         done.append(name)
+        if len(cases) >= 300:
+            rate = len(cases) / max(0.5, time.time() - t_b)
         if cases and len(samples) < 4:
             c = cases[len(cases) // 2]
             samples.append({"program": c["prog"], "ops": expand(c)})
